@@ -12,6 +12,15 @@ several equivalent spellings the source uses:
                 `if a == b: B else: A` (same for `is not`, `not in`, and for
                 conditional expressions)
 
+  conditional   a statement whose value is a conditional expression,
+  expressions   `t = A if C else B`, `return A if C else B`, `t += ...`, is
+                written as the if / else statement; a method called on a
+                conditional expression, `(A if C else B).m(..)`, is the
+                conditional expression of the two calls
+  list(map)     `[f(x) for x in xs]` (one generator, no condition, the
+                element is a call of f on the loop variable alone) is
+                written `list(map(f, xs))`
+
 Ordering comparisons are never negated (`not a < b` is not `a >= b` for NaN).
 Line numbers are kept, so reports still point at the source.
 """
@@ -64,8 +73,9 @@ class Canon(ast.NodeTransformer):
                 return ast.copy_location(negate(o), n)
         return n
 
-    def visit_If(self, n):
-        self.generic_visit(n)
+    def visit_If(self, n, children_done=False):
+        if not children_done:
+            self.generic_visit(n)
         if n.orelse and not (len(n.orelse) == 1 and
                              isinstance(n.orelse[0], ast.If)):
             test, body, orelse = n.test, n.body, n.orelse
@@ -73,6 +83,71 @@ class Canon(ast.NodeTransformer):
                 test, body, orelse = negate(test), orelse, body
             if test is not n.test:
                 return ast.copy_location(ast.If(test, body, orelse), n)
+        return n
+
+    def _stmt_ifexp(self, n):
+        """Statement with an IfExp value -> if / else statement."""
+        v = n.value
+        if not isinstance(v, ast.IfExp):
+            return n
+        import copy
+
+        def arm(val):
+            m = copy.copy(n)
+            m.value = val
+            if isinstance(n, ast.Assign):
+                m.targets = copy.deepcopy(n.targets)
+            elif isinstance(n, ast.AugAssign):
+                m.target = copy.deepcopy(n.target)
+            out = self._stmt_ifexp(ast.copy_location(m, n))
+            return out if isinstance(out, list) else [out]
+        new = ast.copy_location(ast.If(v.test, arm(v.body), arm(v.orelse)),
+                                n)
+        return self.visit_If(new, children_done=True)
+
+    def visit_Assign(self, n):
+        self.generic_visit(n)
+        return self._stmt_ifexp(n)
+
+    def visit_AugAssign(self, n):
+        self.generic_visit(n)
+        return self._stmt_ifexp(n)
+
+    def visit_Return(self, n):
+        self.generic_visit(n)
+        return self._stmt_ifexp(n) if n.value is not None else n
+
+    def visit_Call(self, n):
+        self.generic_visit(n)
+        f = n.func
+        if isinstance(f, ast.Attribute) and isinstance(f.value, ast.IfExp):
+            import copy
+            c = f.value
+
+            def call(recv):
+                return ast.copy_location(ast.Call(
+                    ast.copy_location(ast.Attribute(recv, f.attr, f.ctx), f),
+                    copy.deepcopy(n.args), copy.deepcopy(n.keywords)), n)
+            return ast.copy_location(ast.IfExp(c.test, call(c.body),
+                                               call(c.orelse)), n)
+        return n
+
+    def visit_ListComp(self, n):
+        self.generic_visit(n)
+        if len(n.generators) == 1:
+            g = n.generators[0]
+            e = n.elt
+            if not g.ifs and not g.is_async and isinstance(
+                    g.target, ast.Name) and isinstance(e, ast.Call) and \
+                    not e.keywords and len(e.args) == 1 and isinstance(
+                        e.args[0], ast.Name) and e.args[0].id == g.target.id \
+                    and not any(isinstance(x, ast.Name) and
+                                x.id == g.target.id
+                                for x in ast.walk(e.func)):
+                return ast.copy_location(ast.Call(
+                    ast.Name('list', ast.Load()), [ast.Call(
+                        ast.Name('map', ast.Load()), [e.func, g.iter], [])],
+                    []), n)
         return n
 
     def visit_IfExp(self, n):
